@@ -229,6 +229,8 @@ class Plan:
         self.log = []
         self.pid0_listed = False
         self.pid_exists = True
+        self.os_exc = None
+        self.os_hits = 0
 
 
 PLAN = Plan()
@@ -375,6 +377,44 @@ def default_return(mod, name, args):
     return tuple(slot_value(name, i) for i in range(4))
 
 
+class OsProxy:
+    """Stands in for `os` inside a platform module: readlink / stat / lstat /
+    listdir on a /proc/<PID>/... path consult the plan (Python-level OS calls
+    are fault points too on the procfs based layers)."""
+
+    def __init__(self, real):
+        self._real = real
+        self.path = real.path
+
+    def __getattr__(self, name):
+        return getattr(self._real, name)
+
+    def _hit(self, name, path):
+        if isinstance(path, bytes):
+            path = path.decode()
+        if isinstance(path, str) and (path.startswith(f"/proc/{PID}/") or path == f"/proc/{PID}"):
+            PLAN.log.append("os." + name)
+            if PLAN.os_exc is not None:
+                PLAN.os_hits += 1
+                raise PLAN.os_exc
+
+    def readlink(self, path, *a, **k):
+        self._hit("readlink", path)
+        return self._real.readlink(path, *a, **k)
+
+    def stat(self, path, *a, **k):
+        self._hit("stat", path)
+        return self._real.stat(path, *a, **k)
+
+    def lstat(self, path, *a, **k):
+        self._hit("lstat", path)
+        return self._real.lstat(path, *a, **k)
+
+    def listdir(self, path="."):
+        self._hit("listdir", path)
+        return self._real.listdir(path)
+
+
 def install_platform():
     info = PLATFORMS[PLATFORM]
     sys.platform = info["sysplat"]
@@ -430,7 +470,12 @@ def strategy(tier):
         at=st.sampled_from([0, 0, 0, 1, 2]), zombie=st.booleans(),
         cached_name=st.sampled_from([None, "cached-name"]), pid=st.sampled_from([PID, PID, 0]),
         pid0_listed=st.booleans()))
+    procfs_case = st.fixed_dictionaries(dict(
+        kind=st.just("procfs-fault"), method=st.integers(0, 60), err=st.sampled_from(ERRNOS),
+        zombie=st.booleans(), cached_name=st.sampled_from([None, "cached-name"])))
+    extra = [procfs_case, procfs_case] if PLATFORM in ("netbsd", "sunos", "aix") else []
     return st.one_of(
+        *extra,
         fault_case, fault_case, fault_case, fault_case,
         st.fixed_dictionaries(dict(kind=st.just("slots"), method=st.integers(0, 60),
                                    oneshot=st.booleans())),
@@ -575,6 +620,57 @@ def run_child_case(case):
             if isinstance(e, (AttributeError, TypeError, KeyError, IndexError)):
                 raise Violation("other-error-crashes", f"{desc}: raised {e!r}")
         return Result([f"{PLATFORM}:propagated"], f"{PLATFORM}|{m}|{err}|propagated")
+
+    if kind == "procfs-fault":
+        m = methods[case["method"] % len(methods)]
+        PLAN.reset()
+        PLAN.zombie = case["zombie"]
+        err = case["err"]
+        nsp_class = err in ("ESRCH", "ENOENT")
+        PLAN.pid_exists = PLAN.zombie or not nsp_class
+        PLAN.os_exc = make_oserror(err)
+        proc = plat.Process(PID)
+        proc._name = case["cached_name"]
+        saved_os = plat.os
+        plat.os = OsProxy(saved_os)
+        restore = []
+        if PLATFORM in ("sunos", "aix"):
+            restore.append((plat, "pid_exists", plat.pid_exists))
+            plat.pid_exists = lambda p_: PLAN.pid_exists
+        try:
+            try:
+                val = getattr(proc, m)(*ARGS.get(m, ()))
+                out = ("value", val)
+            except BaseException as e:  # noqa: BLE001
+                out = ("exc", e)
+        finally:
+            plat.os = saved_os
+            for mod, name, old in restore:
+                setattr(mod, name, old)
+        if PLAN.os_hits == 0:
+            return Result([f"{PLATFORM}:procfs-fault-not-reached"], None)
+        desc = (f"{PLATFORM} Process({PID}).{m}() with {err} from a Python-level procfs access "
+                f"({[x for x in PLAN.log if x.startswith('os.')][:3]}), zombie={PLAN.zombie}, "
+                f"cached name {case['cached_name']!r}")
+        if out[0] == "value":
+            return Result([f"{PLATFORM}:procfs-fault-swallowed"], f"{PLATFORM}|{m}|procfs:{err}|value")
+        e = out[1]
+        cls = type(e).__name__
+        if nsp_class:
+            want = "ZombieProcess" if PLAN.zombie else "NoSuchProcess"
+            if cls != want:
+                raise Violation("procfs-nsp-contract", f"{desc}: raised {e!r}, expected {want}")
+        elif err in ("EPERM", "EACCES"):
+            if cls != "AccessDenied":
+                raise Violation("procfs-access-contract", f"{desc}: raised {e!r}, expected AccessDenied")
+        else:
+            if e is not PLAN.os_exc and isinstance(e, psutil.Error):
+                raise Violation("procfs-other-error-converted", f"{desc}: raised {e!r}")
+            return Result([f"{PLATFORM}:procfs-propagated"], f"{PLATFORM}|{m}|procfs:{err}|propagated")
+        if getattr(e, "pid", None) != PID or getattr(e, "name", None) != case["cached_name"]:
+            raise Violation("error-fields", f"{desc}: {e!r} carries pid={getattr(e, 'pid', None)} "
+                            f"name={getattr(e, 'name', None)!r}")
+        return Result([f"{PLATFORM}:procfs-{cls}"], f"{PLATFORM}|{m}|procfs:{err}|{cls}")
 
     if kind == "slots":
         table = EXPECT.get(fam, {})
